@@ -259,6 +259,7 @@ type c13Case struct {
 	Deny     bool      `json:"deny,omitempty"`           // destination refuses the source's entries
 	Keyed    bool      `json:"keyed,omitempty"`          // all logs use one link-encrypting codec, payloads of 9 KiB, skip references
 	SlowIO   bool      `json:"slow_store,omitempty"`     // every block write takes 120 ms while the workers run
+	Big      bool      `json:"big_source,omitempty"`     // the second source log holds 150 more entries (merging it takes a while)
 	SlowPub  bool      `json:"slow_manifests,omitempty"` // manifest writes take 300 ms while the workers run, entry writes are immediate
 	Workers  [][]c13Op `json:"workers"`
 	Park     *c13Park  `json:"park,omitempty"`
@@ -289,6 +290,9 @@ func (c c13Case) signature() string {
 	}
 	if c.SlowPub {
 		s += "|slow-manifests"
+	}
+	if c.Big {
+		s += "|big-source"
 	}
 	return s
 }
@@ -392,6 +396,11 @@ func c13Setup(c c13Case) *c13Run {
 			c13MustAppend(s2, fmt.Sprintf("s2-x%d", i))
 		}
 	}
+	if c.Big {
+		for i := 0; i < 150; i++ {
+			c13MustAppend(s2, fmt.Sprintf("s2-big%d", i))
+		}
+	}
 	r.sources = []*ipfslog.IPFSLog{s1, s2}
 	return r
 }
@@ -416,6 +425,10 @@ func (r *c13Run) do(w int, k int, op c13Op, record bool) {
 		}
 	case "join":
 		if _, err := l.Join(r.sources[op.Arg%len(r.sources)], -1); err != nil {
+			o.Err = err.Error()
+		}
+	case "joinall": // a merge with a bound far beyond the merged size: nothing is dropped, the bounded code path runs
+		if _, err := l.Join(r.sources[op.Arg%len(r.sources)], 1<<20); err != nil {
 			o.Err = err.Error()
 		}
 	case "joinb": // bounded join; the bound never exceeds the initial size (F1 is another property's business)
@@ -1198,6 +1211,19 @@ func runC13(seed int64, tier string, outDir string) *result {
 		app := []c13Op{{Kind: "pause", Arg: 500 + 200*i}, {Kind: "append"}} // pause unit: 100 us
 		pubB := []c13Op{{Kind: "pause", Arg: 1500 + 300*i}, {Kind: "multihash"}}
 		c.Workers = [][]c13Op{pubA, app, pubB}
+		t.runCase(c)
+	}
+
+	// 6b. merges with a bound beyond the merged size (the bounded code path, nothing to drop) of a big source
+	//     while other goroutines append: every append that returned is in the final log
+	for i := 0; i < 2; i++ {
+		c := c13Case{Scenario: "random", Mode: "free", Seed: seed*32452843 + int64(i), Big: true}
+		var app1, app2 []c13Op
+		for k := 0; k < 10; k++ {
+			app1 = append(app1, c13Op{Kind: "append"})
+			app2 = append(app2, c13Op{Kind: "append"}, c13Op{Kind: "pause", Arg: 2})
+		}
+		c.Workers = [][]c13Op{{{Kind: "joinall", Arg: 1}, {Kind: "joinall", Arg: 0}, {Kind: "joinall", Arg: 1}, {Kind: "joinall", Arg: 1}}, app1, app2}
 		t.runCase(c)
 	}
 
